@@ -1,10 +1,29 @@
 (* C14 — no legal value is starved: inferred value ranges over-approximate the solutions.  Property theorems only.
-   PARTIAL: what the library infers as a whole is judged per call by the enumeration oracle of the check; the theorems
-   cover the range-trimming primitives and the randomising bit pattern. *)
+   PARTIAL: for fields constrained against constants (comparisons, membership) the inference is modelled as a whole
+   (Rand/Bounds.v) and proved sound; for general programs what the library infers is judged per call by the enumeration
+   oracle of the check; the remaining theorems cover the range-trimming primitives and the randomising bit pattern. *)
 From Coq Require Import ZArith List Bool.
-From PV Require Import Common.Bits Rand.BV Rand.Swizzle Rand.SwizzleProofs.
+From PV Require Import Common.Bits Rand.BV Rand.Swizzle Rand.SwizzleProofs Rand.Bounds Rand.BoundsProofs.
 Import ListNotations.
 Open Scope Z_scope.
+
+(* bounds inference of a field against constants - comparisons applied round after round until stable, membership lists
+   sorted and merged, starting from the range of the type - never cuts off a value that satisfies all the constraints *)
+Theorem C14_inference_keeps_solutions : forall sg w ks v,
+  1 <= w -> dom_in (type_dom sg w) v = true -> Forall wf_con ks -> forallb (sat1 v) ks = true ->
+  dom_in (infer_fix (type_dom sg w) ks) v = true.
+Proof. exact infer_fix_type_sound. Qed.
+Print Assumptions C14_inference_keeps_solutions.
+(* a field no constraint mentions keeps the whole range of its type *)
+Theorem C14_unmentioned_whole_type : forall ty, infer_fix ty [] = ty.
+Proof. exact infer_fix_no_constraint. Qed.
+Print Assumptions C14_unmentioned_whole_type.
+(* upper bounds and membership are exact: what remains satisfies them (lower bounds are not: see infer_min_not_exact) *)
+Theorem C14_inference_max_in_exact : forall ty ks v,
+  sorted_dom ty = true -> Forall max_in_con ks -> dom_in (infer_fix ty ks) v = true ->
+  forallb (sat1 v) ks = true /\ dom_in ty v = true.
+Proof. exact infer_fix_max_in_exact. Qed.
+Print Assumptions C14_inference_max_in_exact.
 
 (* range trimming never removes a value that satisfies the bound it trims with *)
 Theorem C14_propagate_max_sound : forall d max_v v,
